@@ -1,4 +1,5 @@
 import Txtpp.Lemmas.SinkFacts
+import Txtpp.Lemmas.CliFacts
 import Txtpp.Lemmas.CleanParse
 import Txtpp.Lemmas.ProjectFacts
 import Txtpp.Lemmas.CleanRestore
@@ -118,5 +119,12 @@ theorem build_then_clean_restores_one_source (cfg : Cfg) (hb : cfg.mode = .build
     (hbuild : runPass cfg fs src first = (.ok, fsB)) :
     ∃ fsC, runPass cfg.toClean fsB src first' = (.ok, fsC) ∧ ∀ q, fsC.file? q = fs.file? q :=
   build_then_clean_restores cfg hb fs fsB src first first' hfresh hbuild
+
+/-- entry layer: `txtpp clean …` runs in clean mode with its own flags; a `-N` (or anything else) in
+front of the sub-command cannot turn it into a build -/
+theorem cli_clean_maps_to_clean_mode (p : CliParsed) (f : CliFlags) (h : p.sub = some (.clean f)) :
+    p.config.mode = .clean ∧ p.config.recursive = f.recursive ∧ p.config.inputs = f.inputs ∧
+    ∀ fl bl n, ({ p with flags := fl, build := bl, needed := n } : CliParsed).config = p.config :=
+  ⟨(clean_mode p f h).1, (clean_mode p f h).2.1, (clean_mode p f h).2.2.1, fun fl bl n => sub_ignores_top_level p _ h fl bl n⟩
 
 end C07
